@@ -269,7 +269,7 @@ func (g *G) stmt(c *gctx) []*N {
 	}
 	if P.SwAgain && !deep {
 		// after every other option, for the same reason (gen_switchagain.go)
-		add(30, func() []*N { return g.switchAgain(c) })
+		add(90, func() []*N { return g.switchAgain(c) })
 	}
 	total := 0
 	for _, o := range opts {
